@@ -730,6 +730,12 @@ def applied(c, k):
     v = (c * k(+1)).apply(crra)
     w = k.apply(np.log) + c(-1).apply(np.exp)
     return u, v, w
+
+@simple
+def applied_int(k, c):
+    sq = k.apply(np.square) + c                # with an integer-valued steady state of k the applied numpy function returns a numpy integer
+    ab = (k * k(-1)).apply(np.abs) + 2 * c(+1)
+    return sq, ab
 '''
 
 
@@ -773,6 +779,30 @@ def check_applied_functions():
                 col = np.zeros(T + 4) if e is None else e.matrix(T + 4)[:, 2]
                 if np.abs(fd - col).max() > 1e-5 * max(1.0, np.abs(col).max()):
                     out.append(dict(what='Jacobian of a block with applied functions differs from the derivative of its own nonlinear impulse', input=dict(inp, output=o, input_name=i), signature=dict(op='applied', what='jac-vs-nonlinear', pair=f'{o},{i}')))
+    # operand kinds: python int, numpy integer and numpy float32 steady-state values through numpy functions that return numpy scalars of the same kind
+    blk2 = importlib.import_module('c02_applied').applied_int
+    for kv, kind in ((2, 'python int'), (np.int64(2), 'numpy int64'), (np.float32(2.0), 'numpy float32'), (2.0, 'python float')):
+        inp = dict(kind='applied', block='sq = k.apply(np.square) + c; ab = (k * k(-1)).apply(np.abs) + 2 * c(+1)', ss=dict(k=repr(kv), c=0.5), operand=kind)
+        try:
+            ss = blk2.steady_state(dict(k=kv, c=0.5))
+            T = 4
+            J = blk2.jacobian(ss, ['k', 'c'], T=T)
+            z = blk2.impulse_nonlinear(ss, {'c': np.zeros(T)})
+            bad = []
+            if abs(float(ss['sq']) - 4.5) > 1e-12 or abs(float(ss['ab']) - 5.0) > 1e-12:
+                bad.append('steady state')
+            want = {('sq', 'k'): {(0, 0): 4.0}, ('sq', 'c'): {(0, 0): 1.0}, ('ab', 'k'): {(0, 0): 2.0, (-1, 0): 2.0}, ('ab', 'c'): {(1, 0): 2.0}}
+            for (o, i), els in want.items():
+                e = J.nesteddict.get(o, {}).get(i)
+                got = {} if e is None else {k_: float(v) for k_, v in e.elements.items()}
+                if set(got) != set(els) or any(abs(got[k_] - v) > 1e-4 for k_, v in els.items()):
+                    bad.append(f'Jacobian {o},{i}')
+            if any(np.abs(np.asarray(z[o], dtype=float)).max() > 1e-12 or len(z[o]) != T for o in ('sq', 'ab')):
+                bad.append('zero shock')
+        except Exception as ex:
+            bad = [f'raised {type(ex).__name__}: {ex}']
+        if bad:
+            out.append(dict(what='a block applying numpy functions fails for a steady-state value of this operand kind', input=inp, observed=bad[:4], signature=dict(op='applied', what='operand-kind', operand=kind)))
     return out
 
 
